@@ -22,13 +22,14 @@
 //! list, `Default`), `ml-add.*` (sum of Miller-loop results), `gt.decode`
 //! (non-members offered to the `Gt` decoder).
 //!
-//! Findings on the unchanged tree (isolated in those sub-checks):
-//! * bn256: `MillerLoopResult` is `Fq12` itself, so `+` is field addition, not
+//! Findings (isolated in those sub-checks):
+//! * KNOWN, unfixed (dev-only curve) - bn256: `MillerLoopResult` is `Fq12` itself, so `+` is field addition, not
 //!   the product of Miller-loop values (`bn256:MillerLoopResult:add`,
 //!   `bn256:multi_miller_loop:empty:add`), and `Default` is 0, on which
 //!   `final_exponentiation` panics (`bn256:MillerLoopResult:default:panic`);
-//! * bls12_381: the serde decoder of `Gt` accepts any Fp12 element, including 0
-//!   (`bls12_381:Gt:deserialize:accepts-non-member`).
+//! * repaired - bls12_381: the serde decoder of `Gt` accepted any Fp12 element,
+//!   including 0 (`bls12_381:Gt:deserialize:accepts-non-member`; `gt.decode`
+//!   stays as a regression check).
 //!
 //! Sensitivity (mutants in a scratch worktree, quick tier, seed 1; all caught):
 //! * N1 `Bls12::multi_miller_loop`: identity term resets the accumulator and is
@@ -558,7 +559,7 @@ fn engine_suite<E: MultiMillerLoop>(p: &Prop, eng: &Eng<E>, scale: u32) {
 }
 
 fn main() {
-    vpcore::main("C13", "exploration", (900, 7200), |p| {
+    vpcore::main("C13", "exploration", (1200, 14400), |p| {
         use midnight_curves::{bn256::Bn256, Bls12, Gt};
         p.assume("G1/G2 scalar multiplication, addition, negation and affine conversion are correct (C11); Fr and Fp12 arithmetic are correct (C10)");
         p.assume("generated points are of prime order r (multiples of the generators, or Group::random which clears the cofactor)");
@@ -582,7 +583,7 @@ fn main() {
         );
         p.enumerate(
             "gt.decode.bls12_381",
-            "Fp12 elements that are not in the order-r subgroup (0, 2, -1, a random element, a random element of the cyclotomic subgroup) offered to the serde decoder of Gt: the encoding of Gt is that of the order-r subgroup, so they must be refused (membership decided by f != 0 and f^r = 1 in Fp12)",
+            "REGRESSION (fixed: the Gt decoder accepted any Fp12 element): Fp12 elements that are not in the order-r subgroup (0, 2, -1, a random element, a random element of the cyclotomic subgroup) offered to the serde decoder of Gt: the encoding of Gt is that of the order-r subgroup, so they must be refused (membership decided by f != 0 and f^r = 1 in Fp12)",
             ["zero", "two", "minus-one", "random-Fp12", "random-cyclotomic"].iter().map(|s| s.to_string()).collect(),
             1,
             false,
